@@ -1,8 +1,1 @@
 package sim
-
-type c08Model struct{}
-
-func newC08() *c08Model                                               { return &c08Model{} }
-func (m *c08Model) before(r *Run, s *Step)                            {}
-func (m *c08Model) check(r *Run, s *Step, o *Outcome) []Violation     { return nil }
-func (e EvmEngine) genC08(r *Run) Step                                { return Step{Kind: "block", DtMs: 5000, N: 1} }
